@@ -363,6 +363,28 @@ func history(run *mon.Run, name string, p params) (string, bool) {
 		w.mu.Unlock()
 	}
 	waitBound := 10 * time.Minute
+	// a snapshot of the parked goroutines shortly before a waiter would give up, for the witness
+	var snapMu sync.Mutex
+	var snapshot string
+	stopSnap := make(chan struct{})
+	defer close(stopSnap)
+	go func() {
+		select {
+		case <-stopSnap:
+		case <-time.After(waitBound - 30*time.Second):
+			buf := make([]byte, 1<<20)
+			buf = buf[:runtime.Stack(buf, true)]
+			var keep []string
+			for _, g := range strings.Split(string(buf), "\n\n") {
+				if strings.Contains(g, "rueidislock") || strings.Contains(g, "/repo/") {
+					keep = append(keep, g)
+				}
+			}
+			snapMu.Lock()
+			snapshot = strings.Join(keep, "\n\n")
+			snapMu.Unlock()
+		}
+	}()
 	lostWakeup := func(l int, n string, waited time.Duration, err error) {
 		w.mu.Lock()
 		live := len(w.liveOn(n))
@@ -387,7 +409,7 @@ func history(run *mon.Run, name string, p params) (string, bool) {
 		if len(lg) > 600 {
 			lg = lg[len(lg)-600:]
 		}
-		run.Violation("waiter-not-woken", p.cfg(), map[string]any{"case": name, "locker": l, "name": n, "waited_virtual": waited.String(), "err": fmt.Sprint(err), "live_holders_now": live, "trace": tr, "log": lg})
+		run.Violation("waiter-not-woken", p.cfg(), map[string]any{"case": name, "locker": l, "name": n, "waited_virtual": waited.String(), "err": fmt.Sprint(err), "live_holders_now": live, "trace": tr, "log": lg, "goroutines_30s_before": func() string { snapMu.Lock(); defer snapMu.Unlock(); return snapshot }()})
 	}
 
 	contended := false
